@@ -19,7 +19,7 @@ use zeroize::{ZeroizeOnDrop, Zeroizing};
 
 use crate::{
     crypto::{hash::HashAlgorithm, Decryptor, Signer},
-    errors::{format_err, unsupported_err, Error, Result},
+    errors::{ensure, format_err, unsupported_err, Error, Result},
     ser::Serialize,
     types::{Mpi, PkeskBytes, RsaPublicParams, SignatureBytes},
 };
@@ -70,6 +70,14 @@ impl SecretKey {
             d.into(),
             vec![p.into(), q.into()],
         )?;
+
+        // `u = p^-1 mod q` is recomputed whenever the key is written
+        let primes = secret_key.primes();
+        ensure!(
+            primes.len() == 2 && primes[0].clone().mod_inverse(&primes[1]).is_some(),
+            "invalid RSA secret key: p has no inverse modulo q"
+        );
+
         Ok(Self(secret_key))
     }
 
